@@ -170,21 +170,6 @@ theorem encodeLeaf_eq (l : Leaf) :
         ((headKey l.es).take l.pre ++ sufs l.pre l.es)) := by
   simp [encodeLeaf, sufs]
 
-/-- the stored prefix has the recorded length (a leaf without keys has no prefix) -/
-theorem storedPrefix (l : Leaf) (hpre : l.PreOK) (hne : l.es ≠ []) :
-    ((headKey l.es).take l.pre).length = l.pre ∧ ∀ e ∈ l.es, (headKey l.es).take l.pre <+: e.1 := by
-  obtain ⟨_, _, p, hp, hall⟩ := hpre
-  cases hes : l.es with
-  | nil => exact absurd hes hne
-  | cons x r =>
-    obtain ⟨t, ht⟩ := hall x (by rw [hes]; exact List.mem_cons_self)
-    have : (headKey (x :: r)).take l.pre = p := by
-      simp only [headKey]; rw [← ht, ← hp]; simp
-    rw [this]
-    refine ⟨hp, ?_⟩
-    intro e he
-    exact hall e (by rw [hes]; exact he)
-
 /-- decoding what `finishInto` wrote gives the leaf back, the recorded size is the real size -/
 theorem leaf_roundtrip (l : Leaf) (hn : l.es.length < 256) (hpre : l.PreOK)
     (hoff : ∀ e ∈ l.es, e.2 < 1099511627776) (hsz : l.size < 65536) :
